@@ -771,3 +771,27 @@ impl Game {
         }
     }
 }
+
+/// verification hooks: read access to the private state and a
+/// constructor that gives each seat its own hole cards
+#[cfg(robopoker_verif)]
+impl Game {
+    pub fn verif_seats(&self) -> Vec<(State, Chips, Chips, Chips, Hole)> {
+        self.seats
+            .iter()
+            .map(|s| (s.state(), s.stack(), s.stake(), s.spent(), s.cards()))
+            .collect()
+    }
+    pub fn verif_ticker(&self) -> usize {
+        self.ticker
+    }
+    pub fn verif_dealer(&self) -> usize {
+        self.dealer
+    }
+    pub fn verif_with_holes(mut self, holes: &[Hole]) -> Self {
+        for (seat, hole) in self.seats.iter_mut().zip(holes.iter()) {
+            seat.reset_cards(*hole);
+        }
+        self
+    }
+}
